@@ -235,6 +235,17 @@ def _judge_ff(case, acc, p, drv, ref, st):
                 raise _Injected('omv injected model failure at evaluation %d' % fault)
             return orig(*a, **kw)
         drv._run_solve_nonlinear = failing
+    # record every residual evaluation (driver-scaled x, residual vector) requested by least_squares, so that a
+    # success claimed for a point other than the one the model is left at can be named as such
+    evals = []
+    orig_ccv = drv._compute_con_viol
+
+    def recording_ccv(x, *a, **kw):
+        xx = np.array(x, float)
+        r = orig_ccv(x, *a, **kw)
+        evals.append((xx, 0.5 * float(np.dot(r, r))))
+        return r
+    drv._compute_con_viol = recording_ccv
     try:
         with contextlib.redirect_stdout(io.StringIO()):
             p.find_feasible(driver_scaling=ds, iprint=0, loss_tol=loss_tol)
@@ -270,6 +281,16 @@ def _judge_ff(case, acc, p, drv, ref, st):
                 '%s:%s' % (exc[0].__name__, 'array-bounds' if arr else '+'.join(forms))),
                 'success reported but the residual callback raised (%s) and returned zeros; harness-evaluated '
                 '1/2*sum(viol^2)=%.3g at z=%s' % (str(exc[1])[:100], cost, zz.tolist()), case, fp=fp)
+            return
+        if evals and min(c for _, c in evals) <= loss_tol < evals[-1][1]:
+            # least_squares found (and reports) a point within loss_tol, but its last evaluation - the state the
+            # model is left in - is another point (a rejected trust-region trial step)
+            best = min(evals, key=lambda e: e[1])
+            acc.viol('find_feasible:success-with-violation:model-left-at-rejected-trial-point',
+                     'success reported for the evaluated point x=%s (1/2*sum(viol^2)=%.3g) but the model is left at '
+                     'the last trial point x=%s: harness-evaluated 1/2*sum(viol^2)=%.3g > loss_tol=%.1g at z=%s '
+                     '(viol %s, driver_scaling=%s)' % (best[0].tolist(), best[1], evals[-1][0].tolist(), cost,
+                                                      loss_tol, zz.tolist(), v.tolist(), ds), case, fp=fp)
             return
         acc.viol('find_feasible:success-with-violation:driver_scaling-%s:%s' % (
             'true' if ds else 'false', 'scaled' if sc_tag != 'noscale' else 'noscale'),
